@@ -19,3 +19,7 @@ package model
 //@   ensures result1 != nil ==> result0 == nil
 //@   ensures result1 == nil ==> result0 != nil && fresh(result0) && result0.Value == cmdValue(*cmd) && result0.Value != nil && ((result0.Function != nil) <==> cmdHasFct(*cmd)) && (result0.Function != nil ==> *result0.Function == cmdFct(*cmd))
 //@   modifies new(CmdData), new(FunctionType)
+
+// log text only; may panic on malformed datagrams (C05)
+//@ func (*DatagramType).PrintMessageOverview trusted
+//@   modifies nothing
